@@ -7,6 +7,7 @@ import (
 	"flag"
 	"fmt"
 	"os"
+	"runtime/debug"
 	"strconv"
 	"strings"
 	"sync"
@@ -120,8 +121,16 @@ func RunRapid(rec *ev.Recorder, name string, checks int, stream int, prop func(*
 }
 
 // Finish writes the partial evidence and fails the Go test if there were
-// violations (the driver decides the exit code from the partial file).
+// violations (the driver decides the exit code from the partial file). It must
+// be deferred directly (`defer Finish(t, rec)`): a panic that escapes the test
+// body (a Go panic out of golua, or a harness bug) is recorded as a violation
+// instead of being lost.
 func Finish(t *testing.T, rec *ev.Recorder) {
+	if p := recover(); p != nil {
+		msg := fmt.Sprintf("panic escaped the check: %v\n%s", p, debug.Stack())
+		rec.Violation("panic", fmt.Sprint(p), msg)
+		fmt.Println(msg)
+	}
 	rec.Finish()
 	if n := rec.NViolations(); n > 0 {
 		t.Errorf("%d violation(s)", n)
